@@ -22,7 +22,10 @@ import CE.Rules.PendingDistinct
   state the validator reaches on any stream, no waiting (forward) reference names an identifier that is
   already registered (CE/Rules/Pending.lean), so what `endDocument` finds waiting is exactly the set of
   references whose marker never came; `known_identifiers_are_partitioned` - registered and waiting
-  identifiers together contain no identifier twice (CE/Rules/PendingDistinct.lean).  The type masks over whole documents are
+  identifiers together contain no identifier twice (CE/Rules/PendingDistinct.lean).  For the type masks of
+  forward references the two mechanism halves are theorems (`forward_reference_mask_narrows`: a waiting id's
+  mask only narrows, within every reference's own mask; `marking_checks_the_waiting_mask`: a waiting id is
+  registered only with a type inside that mask).  The type masks over whole documents are
   `…_partial`: exercised by the WF.REL oracle against the independent grammar's global
   conditions (`Spec.globalOK`) on every run.
 -/
@@ -121,6 +124,53 @@ theorem every_reference_of_an_accepted_document_has_its_marker (env : Env) (htbl
 theorem registered_markers_are_distinct (env : Env) (evs : List Ev) :
     ((run env RState.init evs 0).2.2.marked.map (·.1)).Nodup :=
   run_distinct env evs RState.init 0 (by simp [MarkersDistinct, RState.init])
+
+/-- type mask of a waiting reference, recording half: a reference to an unregistered id leaves the id
+    waiting with a mask that is within the mask of this reference AND within whatever mask it was
+    waiting with before (0 = not waiting: the Go map's zero value) -/
+theorem forward_reference_mask_narrows (s s' : RState) (id : Bytes) (allowed : DT)
+    (hm : lookupForward s.marked id = none) (h : localReference s id allowed = .ok s') :
+    ∃ nw, lookupForward s'.forward id = some nw ∧ nw &&& allowed = nw ∧
+      ((lookupForward s.forward id).getD 0 = 0 → nw = allowed) ∧
+      ((lookupForward s.forward id).getD 0 ≠ 0 → nw = (lookupForward s.forward id).getD 0 &&& allowed) := by
+  simp only [localReference, hm] at h
+  injection h with h; subst h
+  refine ⟨if (lookupForward s.forward id).getD 0 = 0 then allowed else (lookupForward s.forward id).getD 0 &&& allowed,
+    by simp [lookupForward, List.find?], ?_, ?_, ?_⟩
+  · split
+    · exact Nat.and_self _
+    · rw [Nat.and_assoc, Nat.and_self]
+  · intro h0; simp [h0]
+  · intro h0; simp [h0]
+
+/-- type mask of a waiting reference, checking half: a marker whose id is waiting is registered only
+    if its type is within the mask the id was waiting with; and then the id waits no longer -/
+theorem marking_checks_the_waiting_mask (cfg : Cfg) (s s' : RState) (dt m : DT)
+    (hw : lookupForward s.forward s.markerID = some m) (h : markObject cfg s dt = .ok s') :
+    m &&& dt ≠ 0 ∧ lookupForward s'.forward s.markerID = none := by
+  unfold markObject at h
+  simp only [bind, Except.bind, pure, Except.pure, throw, throwThe, MonadExceptOf.throw, hw] at h
+  split at h
+  · cases h
+  split at h
+  · cases h
+  split at h
+  · cases h
+  · rename_i hne
+    injection h with h; subst h
+    refine ⟨hne, ?_⟩
+    simp only [lookupForward, Option.map_eq_none_iff, List.find?_eq_none]
+    intro p hp
+    have := (List.mem_filter.1 hp).2
+    simpa using this
+
+/-- non-vacuity of the two above: a forward reference in value position waits with a non-zero mask,
+    and the marker that follows is registered against it -/
+example :
+    let env : Env := { tbl := Model.ruleTable, identSafe := fun _ => true }
+    ((lookupForward (run env RState.init [.beginDoc, .version 0, .list, .refLocal [97]] 0).2.2.forward [97]).getD 0 ≠ 0) ∧
+    (lookupForward (run env RState.init [.beginDoc, .version 0, .list, .refLocal [97], .marker [97], .posInt 1] 0).2.2.marked [97]).isSome = true := by
+  decide +kernel
 
 /-- the table of waiting references never names a registered marker, on any stream, accepted or not:
     a reference waits only while its marker has not come, and registering the marker removes it -/
